@@ -392,6 +392,8 @@ CfgAssignments ==
   \cup {<<f, v>> : f \in {"rmax", "mfa"}, v \in {"0", "1", "2", "8", "max32"}}
   \cup {<<"jit", v>> : v \in SeqRange(JitSyms)} \cup {<<"srv", v>> : v \in SeqRange(SrvSyms)}
   \cup {<<f, v>> : f \in {"rbase", "rmaxd", "rto", "cto", "ttl"}, v \in {"0", "1ns", "max"}} \cup {<<"mred", "max">>, <<"pmph", "0">>}
+\* the fields validate() and the estimate relate to each other
+RelAssignments == {a \in CfgAssignments : a[1] \in {"mcph", "sbs", "mrs", "rct", "mtc"}}
 CfgBases == <<"default", "high_throughput", "low_memory", "unreliable_network", "cdn:blizzard_only", "cdn:community_only", "cdn:high_availability",
               "cdn:development", "parts">>
 FieldOrder == <<"mcph", "sbs", "mrs", "rct", "mrpr", "mred", "rmax", "jit", "rbase", "rmaxd", "mtc", "pmph", "rto", "cto", "ttl", "mfa", "srv">>
@@ -399,9 +401,9 @@ FieldPos(f) == CHOOSE i \in 1..Len(FieldOrder) : FieldOrder[i] = f
 CfgCfgs ==
   {[base |-> b, set |-> <<>>] : b \in SeqRange(CfgBases)}
   \cup {[base |-> b, set |-> <<a>>] : b \in SeqRange(CfgBases), a \in CfgAssignments}
-  \cup (IF D >= 2 THEN {[base |-> "default", set |-> <<a1, a2>>] : a1, a2 \in CfgAssignments} ELSE {})
-  \cup (IF D >= 3 THEN {[base |-> "default", set |-> <<a1, a2, <<"mcph", v>> >>] : a1 \in {<<"sbs", x>> : x \in SeqRange(IntSyms)},
-                                                                                  a2 \in {<<"mtc", x>> : x \in SeqRange(IntSyms)}, v \in SeqRange(IntSyms)} ELSE {})
+  \cup (IF D >= 2 THEN {[base |-> "default", set |-> <<a1, a2>>] : a1, a2 \in (IF D >= 3 THEN CfgAssignments ELSE RelAssignments)} ELSE {})
+  \cup (IF D >= 3 THEN {[base |-> "default", set |-> << <<"mcph", v>>, a1, a2>>] : a1 \in {<<"sbs", x>> : x \in SeqRange(IntSyms)},
+                                                                                   a2 \in {<<"mtc", x>> : x \in SeqRange(IntSyms)}, v \in SeqRange(IntSyms)} ELSE {})
 \* only ordered pairs of different fields
 CfgOk(c) == \A i, j \in 1..Len(c.set) : i < j => FieldPos(c.set[i][1]) < FieldPos(c.set[j][1])
 CfgInit == cfg \in {c \in CfgCfgs : CfgOk(c)} /\ hist = <<>> /\ ms = 0 /\ js = 0 /\ clock = 0 /\ bad = FALSE
